@@ -57,14 +57,31 @@ class State:
         s.known = dict(self.known)
         if "$names" in s.known:
             s.known["$names"] = dict(s.known["$names"])
+        s.known.pop("$pcids", None)
         s.guards = list(self.guards)
         s.epoch = self.epoch
         return s
 
     def assume(self, f):
+        self.add_fact(f)
+
+    def add_fact(self, f):
+        """append to the path condition unless the very same formula is already there"""
         if z3.is_true(f):
             return
+        ids = self.known.get("$pcids")
+        if ids is None or ids[0] is not self.pc:
+            ids = (self.pc, {a.get_id() for a in self.pc})
+            self.known["$pcids"] = ids
+        i = f.get_id()
+        if i in ids[1]:
+            return
+        ids[1].add(i)
         self.pc.append(f)
+
+    def add_facts(self, fs):
+        for f in fs:
+            self.add_fact(f)
 
 
 class Obligation:
@@ -289,7 +306,7 @@ class Executor:
         key = ("heap", arr.get_id())
         if key not in names:
             c = fresh("Hn_" + name.replace("$", "S"), arr.sort())
-            st.pc.append(c == arr)
+            st.add_fact(c == arr)
             names[key] = c
         return names[key]
 
@@ -593,19 +610,19 @@ class Executor:
         """Seq held by list object ref_t in the current heap, as a named constant (per path)"""
         heap = self.heap_get(st, "$seq")
         if self.quant_facts is not None and self.mentions_bound(ref_t):
+            self.witness_heap_fact(st)
             if hint is not None and hint.kind == "list" and hint.name not in ("Any", "Local"):
                 self.typed_heap_fact(st, hint.name)
-                return self.named_heap(st, "$seq")[ref_t]
-            return heap[ref_t]
+            return self.named_heap(st, "$seq")[ref_t]
         key = (heap.get_id(), ref_t.get_id())
         names = st.known.setdefault("$names", {})
         if key not in names:
             c = fresh("sq", Seq)
-            st.pc.append(c == heap[ref_t])
+            st.add_fact(c == heap[ref_t])
             names[key] = c
             # every member sits at its first position (witness, scoped to this sequence)
             x = z3.Const(f"x!{next(_uid)}", Val)
-            st.pc.append(smt.forall([x], z3.Implies(Contains(c, x), At(c, IndexOf(c, x)) == x), [Contains(c, x)]))
+            st.add_fact(smt.forall([x], z3.Implies(Contains(c, x), At(c, IndexOf(c, x)) == x), [Contains(c, x)]))
         c = names[key]
         # element typing of a list of a declared kind, available from membership as well as from position
         ety = None
@@ -619,8 +636,8 @@ class Executor:
             k = z3.Int(f"k!{next(_uid)}")
             try:
                 tp = lambda t: z3.simplify(self.type_pred(ety, t, st, "val"))
-                st.pc.append(smt.forall([x], z3.Implies(Contains(c, x), tp(x)), [Contains(c, x)]))
-                st.pc.append(smt.forall([k], z3.Implies(z3.And(0 <= k, k < Len(c)), tp(At(c, k))), [At(c, k)]))
+                st.add_fact(smt.forall([x], z3.Implies(Contains(c, x), tp(x)), [Contains(c, x)]))
+                st.add_fact(smt.forall([k], z3.Implies(z3.And(0 <= k, k < Len(c)), tp(At(c, k))), [At(c, k)]))
             except Unsupported:
                 pass
         return c
@@ -647,6 +664,19 @@ class Executor:
             stack.extend(x.children())
         return False
 
+    def witness_heap_fact(self, st):
+        """every member of any list of the current heap sits at its first position (needed when a
+        contract quantifies over list objects, so that the sequence cannot be named)"""
+        H = self.named_heap(st, "$seq")
+        names = st.known.setdefault("$names", {})
+        key = ("witnessheap", H.get_id())
+        if key in names:
+            return
+        names[key] = True
+        l = z3.Int(f"l!{next(_uid)}")
+        x = z3.Const(f"x!{next(_uid)}", Val)
+        st.add_fact(smt.forall([l, x], z3.Implies(Contains(H[l], x), At(H[l], IndexOf(H[l], x)) == x), [Contains(H[l], x)]))
+
     def typed_heap_fact(self, st, kind):
         """element typing of EVERY list of a declared kind in the current heap (needed when a contract
         quantifies over lists, e.g. over the priority lines of a node)"""
@@ -664,10 +694,10 @@ class Executor:
         k = z3.Int(f"k!{next(_uid)}")
         try:
             tx = z3.simplify(self.type_pred(e, x, st, "val"))
-            st.pc.append(smt.forall([l, x], z3.Implies(z3.And(role_of(l) == self.rid(kind), Contains(H[l], x)), tx),
+            st.add_fact(smt.forall([l, x], z3.Implies(z3.And(role_of(l) == self.rid(kind), Contains(H[l], x)), tx),
                                     [Contains(H[l], x)]))
             tk = z3.simplify(self.type_pred(e, At(H[l], k), st, "val"))
-            st.pc.append(smt.forall([l, k], z3.Implies(z3.And(role_of(l) == self.rid(kind), 0 <= k, k < Len(H[l])), tk),
+            st.add_fact(smt.forall([l, k], z3.Implies(z3.And(role_of(l) == self.rid(kind), 0 <= k, k < Len(H[l])), tk),
                                     [At(H[l], k)]))
         except Unsupported:
             pass
@@ -766,10 +796,13 @@ class Executor:
             concs = self.concrete_subclasses(classes) if classes else []
             if o.h is not None and o.h.kind == "obj" and getattr(o, "exactcls", None):
                 concs = [o.exactcls]
+            good = []
             for c in concs:
                 if c in self.P.classes and name not in self.P.init_assigned(c):
                     # only classes that can have the field at all
                     needs_has = True
+                else:
+                    good.append(c)
             if not classes:
                 needs_has = False
             if needs_has and any((m, name) in self.S.lazy_ok for c in concs for m in (self.P.mro(c) if c in self.P.classes else [c])):
@@ -777,7 +810,8 @@ class Executor:
                 self.assumed_used.add(f"I-DEF: attribute {name} exists on every {'/'.join(classes)} once Simulation.__init__ has returned")
             if needs_has:
                 has = self.heap_get(st, "has$" + name)
-                self.oblige(st, "def", f"attr-{name}-exists", node, has[o.t])
+                alts = [has[o.t]] + [cls_of(o.t) == self.cid(c) for c in good]
+                self.oblige(st, "def", f"attr-{name}-exists", node, z3.Or(alts))
         if hk == "val" and ty.sort() != "val":
             # heap is Val-sorted because another class uses the name differently
             self.assume(st, z3.simplify(self.type_pred(ty, term, st, "val")))
@@ -1146,7 +1180,7 @@ class Executor:
             s = self.seq_of(container, st, node)
             xv = self.to_val(x)
             if not self.mentions_bound(s) and not self.mentions_bound(xv):
-                st.pc.append(smt.index_fact(s, xv))
+                st.add_fact(smt.index_fact(s, xv))
             return Contains(s, xv)
         raise Unsupported("in on " + container.k, node)
 
@@ -1397,11 +1431,11 @@ class Executor:
         key = ("dk", dk.get_id(), dh.get_id(), d.get_id())
         if key not in names:
             c = fresh("keys", Seq)
-            st.pc.append(c == dk[d])
+            st.add_fact(c == dk[d])
             j = z3.Int(f"j!{next(_uid)}")
-            st.pc.append(smt.forall([j], z3.Implies(z3.And(0 <= j, j < Len(c)), dh[d][At(c, j)]), [At(c, j)]))
+            st.add_fact(smt.forall([j], z3.Implies(z3.And(0 <= j, j < Len(c)), dh[d][At(c, j)]), [At(c, j)]))
             x = z3.Const(f"x!{next(_uid)}", Val)
-            st.pc.append(smt.forall([x], dh[d][x] == Contains(c, x), [Contains(c, x)]))
+            st.add_fact(smt.forall([x], dh[d][x] == Contains(c, x), [Contains(c, x)]))
             names[key] = c
         return names[key]
 
